@@ -665,6 +665,8 @@ def e2e_scripts(ctx):
         (1, 3, 2, 'r1:300 r2:4500 r3:300 w q r4:50 w q'),        # a hung request beside served ones
         (3, 3, 2, 'r1:100 r2:100 r3:100 r4:100 r5:100 r6:100 w q'),
         (0, 2, 2, 'q'),                                          # no initial workers: nothing to do, nothing dies
+        (1, 1, 2, 'r1:300 w z2600 r2:300 w q'),                  # idle longer than --timeout, then a short request: served
+        (2, 2, 2, 'z2300 r1:400 r2:400 w q'),                    # the first requests arrive after a long idle start
     ]
     out = list(base)
     rng = ctx.rng
@@ -678,6 +680,8 @@ def e2e_scripts(ctx):
                 rid += 1
                 toks.append('r%d:%d' % (rid, rng.choice([30, 120, 200, 300, 4500])))
             toks += ['w', 'q']
+            if rng.random() < 0.3:
+                toks.append('z%d' % rng.choice([500, 2300, 3000]))
         out.append((init, mx, 2, ' '.join(toks)))
     return out
 
